@@ -488,3 +488,159 @@ Example fragment_example :
   pa_scan false t = Some ([mk_cspec 100 None (Some [45]) (FNum 5) (FNum 2) (Some 108); bare 37], [[97]; []; [98]; []; [10]; [10]]) /\
   py_scan false t = PSOk [mk_cspec 100 None (Some [45]) (FNum 5) (FNum 2) (Some 108); bare 37].
 Proof. vm_compute. repeat split; reflexivity. Qed.
+
+(* ================================================================ phase 3: pa_scan is total; no '(' means no mapping key *)
+Lemma try_spec_shorter : forall b s cs rest, try_spec b s = Some (cs, rest) -> (length rest < length s)%nat.
+Proof.
+  intros b s cs rest H. unfold try_spec in H. destruct s as [|c s1].
+  - destruct (spec_tail_suffix _ _ _ _ _ _ (scan_int_field_suffix b) H) as [_ Hl]. exact Hl.
+  - destruct (c =? ch_lpar).
+    + pose proof (span_suffix (fun x => negb (x =? ch_rpar)) s1) as Hs.
+      destruct (span (fun x => negb (x =? ch_rpar)) s1) as [k r]. simpl in Hs.
+      destruct k as [|k0 k]; [discriminate|]. destruct r as [|r0 r']; [discriminate|].
+      destruct (spec_tail_suffix _ _ _ _ _ _ (scan_int_field_suffix b) H) as [_ Hl].
+      pose proof (suffix_length _ _ Hs). simpl in *. lia.
+    + destruct (spec_tail_suffix _ _ _ _ _ _ (scan_int_field_suffix b) H) as [_ Hl]. exact Hl.
+Qed.
+
+(* progress of one regex match *)
+Lemma find_match_progress : forall b fuel pre_rev s first must pre sp rest empty,
+  find_match b fuel pre_rev s first must = OM pre sp rest empty ->
+  (empty = true -> first = true /\ must = false /\ rest = s) /\
+  (empty = false -> (length rest <= length s)%nat /\ (first = true -> (length rest < length s)%nat)).
+Proof.
+  intros b fuel. induction fuel as [|fuel IH]; intros pre_rev s first must pre sp rest empty H; simpl in H.
+  - assert (forall X : onematch, X = NoMatch ->
+            (if at_dollar s && negb (first && must) then OM (rev pre_rev) None s first else X) = OM pre sp rest empty ->
+            (empty = true -> first = true /\ must = false /\ rest = s) /\
+            (empty = false -> (length rest <= length s)%nat /\ (first = true -> (length rest < length s)%nat))) as Hd.
+    { intros X HX G. destruct (at_dollar s && negb (first && must)) eqn:E; [|subst X; discriminate].
+      injection G as <- <- <- <-. apply andb_true_iff in E. destruct E as [_ E]. apply negb_true_iff in E.
+      split.
+      - intros ->. simpl in E. repeat split; try reflexivity; exact E.
+      - intros ->. split; [lia|discriminate]. }
+    destruct s as [|c s'].
+    + apply (Hd NoMatch eq_refl). destruct (at_dollar [] && negb (first && must)); exact H.
+    + destruct (c =? ch_pct).
+      * destruct (try_spec b s') as [[cs r]|] eqn:Et.
+        -- injection H as <- <- <- <-. pose proof (try_spec_shorter b s' cs r Et). split; [discriminate|].
+           intros _. simpl. split; [lia|intros _; lia].
+        -- apply (Hd NoMatch eq_refl). destruct (at_dollar (c :: s') && negb (first && must)); exact H.
+      * apply (Hd NoMatch eq_refl). destruct (at_dollar (c :: s') && negb (first && must)); exact H.
+  - assert ((match (if at_dollar s && negb (first && must) then Some (OM (rev pre_rev) None s first) else None) with
+             | Some m => m
+             | None => match s with c :: s' => find_match b fuel (c :: pre_rev) s' false must | [] => NoMatch end
+             end) = OM pre sp rest empty ->
+            (empty = true -> first = true /\ must = false /\ rest = s) /\
+            (empty = false -> (length rest <= length s)%nat /\ (first = true -> (length rest < length s)%nat))) as Hstep.
+    { intros G. destruct (at_dollar s && negb (first && must)) eqn:E.
+      - injection G as <- <- <- <-. apply andb_true_iff in E. destruct E as [_ E]. apply negb_true_iff in E.
+        split.
+        + intros ->. simpl in E. repeat split; try reflexivity; exact E.
+        + intros ->. split; [lia|discriminate].
+      - destruct s as [|c s']; [discriminate|].
+        destruct (IH _ _ _ _ _ _ _ _ G) as [H1 H2]. split.
+        + intros He. destruct (H1 He) as [Hx _]. discriminate.
+        + intros He. destruct (H2 He) as [Hl _]. simpl. split; [lia|intros _; lia]. }
+    destruct s as [|c s'].
+    + apply Hstep. exact H.
+    + destruct (c =? ch_pct).
+      * destruct (try_spec b s') as [[cs r]|] eqn:Et.
+        -- injection H as <- <- <- <-. pose proof (try_spec_shorter b s' cs r Et). split; [discriminate|].
+           intros _. simpl. split; [lia|intros _; lia].
+        -- apply Hstep. exact H.
+      * apply Hstep. exact H.
+Qed.
+
+(* finditer needs at most 2*length+2 matches *)
+Lemma scan_loop_total : forall b fuel s (must : bool),
+  (2 * length s + (if must then 1 else 2) <= fuel)%nat -> scan_loop b fuel s must <> None.
+Proof.
+  intros b fuel. induction fuel as [|fuel IH]; intros s must Hf.
+  - destruct must; lia.
+  - simpl. destruct (find_match b (length s) [] s true must) as [pre sp rest empty|] eqn:Em; [|discriminate].
+    destruct (find_match_progress _ _ _ _ _ _ _ _ _ _ Em) as [H1 H2].
+    assert (scan_loop b fuel rest empty <> None) as Hn.
+    { apply IH. destruct empty.
+      - destruct (H1 eq_refl) as [_ [-> ->]]. lia.
+      - destruct (H2 eq_refl) as [_ Hl]. specialize (Hl eq_refl). destruct must; lia. }
+    destruct (scan_loop b fuel rest empty); [discriminate|contradiction].
+Qed.
+
+Theorem pa_scan_total : forall is_bytes t, exists specs pieces, pa_scan is_bytes t = Some (specs, pieces).
+Proof.
+  intros b t. unfold pa_scan.
+  assert (2 * length t + (if false then 1 else 2) <= 2 * length t + 3)%nat as Hle by (cbv beta iota; lia).
+  pose proof (scan_loop_total b (2 * length t + 3) t false Hle) as H.
+  destruct (scan_loop b (2 * length t + 3) t false); [|contradiction]. eexists. eexists. reflexivity.
+Qed.
+
+(* a template without '(' has no mapping key *)
+Lemma try_spec_no_key : forall b s cs rest, frag b s = true -> try_spec b s = Some (cs, rest) -> c_key cs = None.
+Proof.
+  intros b s cs rest F H. unfold try_spec in H.
+  assert (forall s2, spec_tail (scan_int_field b) None None s2 = Some (cs, rest) -> c_key cs = None) as Ht.
+  { intros s2 G. unfold spec_tail in G.
+    destruct (span (fun x => mem x flag_chars) s2) as [fl s3].
+    destruct (scan_int_field b s3) as [w s4].
+    destruct (match s4 with
+              | [] => Some (FNone, s4)
+              | c :: s5 => if c =? ch_dot then match scan_int_field b s5 with (FNone, _) => None | pr => Some pr end else Some (FNone, s4)
+              end) as [[p s6]|]; [|discriminate].
+    destruct (match s6 with [] => (None, s6) | c :: s' => if mem c len_chars then (Some c, s') else (None, s6) end) as [lm s7].
+    destruct s7 as [|c s8]; [discriminate|]. destruct (mem c conv_chars); [|discriminate].
+    injection G as <- _. reflexivity. }
+  destruct s as [|c s1]; [apply (Ht [] H)|].
+  assert (c =? ch_lpar = false) as Hl.
+  { unfold frag in F. simpl in F. apply andb_true_iff in F. destruct F as [F _].
+    unfold ok_char in F. apply andb_true_iff in F. destruct F as [F _]. apply negb_true_iff in F. exact F. }
+  rewrite Hl in H. apply (Ht (c :: s1) H).
+Qed.
+
+Lemma scan_loop_no_keys : forall b fuel s must ms,
+  frag b s = true -> scan_loop b fuel s must = Some ms ->
+  forall cs, In cs (specs_of ms) -> c_key cs = None.
+Proof.
+  intros b fuel. induction fuel as [|fuel IH]; intros s must ms F H cs Hin; [discriminate|].
+  simpl in H. destruct (find_match b (length s) [] s true must) as [pre sp rest empty|] eqn:Em.
+  - destruct (scan_loop b fuel rest empty) as [l|] eqn:El; [|discriminate]. injection H as <-.
+    destruct (find_match_spec b _ _ _ _ _ _ _ _ _ (fun _ => eq_refl) Em) as [sk [s' [Hs [_ [Hsp _]]]]].
+    subst s.
+    assert (frag b s' = true) as F' by (apply (suffix_frag b s' (sk ++ s')); [exists sk; reflexivity|exact F]).
+    unfold specs_of in Hin. simpl in Hin. apply in_app_or in Hin.
+    destruct sp as [c0|].
+    + destruct Hsp as [s'' [-> Ht]].
+      assert (frag b s'' = true) as F'' by (apply (suffix_frag b s'' (ch_pct :: s'')); [apply suffix_cons, suffix_refl|exact F']).
+      destruct Hin as [[<-|[]]|Hin].
+      * apply (try_spec_no_key b s'' c0 rest F'' Ht).
+      * destruct (try_spec_py b s'' c0 rest F'' Ht) as [_ [Hsuf _]].
+        apply (IH rest empty l (suffix_frag b _ _ Hsuf F'') El cs Hin).
+    + destruct Hsp as [-> _]. destruct Hin as [[]|Hin]. apply (IH s' empty l F' El cs Hin).
+  - injection H as <-. contradiction.
+Qed.
+
+Lemma fragment_no_mapping : forall is_bytes t specs pieces,
+  frag is_bytes t = true -> pa_scan is_bytes t = Some (specs, pieces) -> needs_mapping specs = false.
+Proof.
+  intros b t specs pieces F H. unfold pa_scan in H.
+  destruct (scan_loop b (2 * length t + 3) t false) as [ms|] eqn:El; [|discriminate].
+  injection H as Hspecs _. fold (specs_of ms) in Hspecs. subst specs.
+  unfold needs_mapping. destruct (existsb (fun cs => is_some (c_key cs)) (specs_of ms)) eqn:E; [|reflexivity].
+  apply existsb_exists in E. destruct E as [cs [Hin Hk]].
+  rewrite (scan_loop_no_keys b _ _ _ _ F El cs Hin) in Hk. discriminate.
+Qed.
+
+(* the character-level theorem on the fragment with every parser hypothesis and
+   both mapping clauses discharged: only the numeric-overflow clause is left *)
+Theorem percent_fragment_raise_reported_total : forall is_bytes t a,
+  frag is_bytes t = true ->
+  exists specs pieces, pa_scan is_bytes t = Some (specs, pieces) /\
+    (overflow_clause specs a = false ->
+     py_raises_chars is_bytes t a = Some true -> pa_reports_chars is_bytes t a = Some true).
+Proof.
+  intros b t a F. destruct (pa_scan_total b t) as [specs [pieces H]]. exists specs, pieces. split; [exact H|].
+  intros Hov Hr. pose proof (fragment_no_mapping b t specs pieces F H) as Hnm.
+  apply (percent_fragment_raise_reported b t a specs pieces); try assumption.
+  - unfold bytes_mapping_clause. rewrite Hnm. apply andb_false_r.
+  - unfold nonstr_keys_clause. rewrite Hnm. reflexivity.
+Qed.
